@@ -148,7 +148,14 @@ def execute_guarded(mod, scn, L):
             out.case_key = scn_digest(scn.get('actors'))
             return out, None
 
-        return None, 'run exceeded %ds CPU' % RUN_CPU_CAP_S
+        # not a verdict and, in small numbers, not a failure of the check
+        # either: the scenario was too expensive for its allowance and is
+        # reported as discarded (run_check turns more than a handful of
+        # these into a harness error)
+        from dsim.pipe import Outcome
+        out = Outcome()
+        out.discarded = 'cpu-allowance-exceeded'
+        return out, None
     except HarnessError as e:
         return None, 'HarnessError: %s' % e
     except Exception:
@@ -540,6 +547,12 @@ def run_check(pid, tier):
                 fu.cancel()
 
     search_s = time.time() - t0
+    ncpu = agg['discarded'].get('cpu-allowance-exceeded', 0)
+
+    if ncpu > max(3, agg['scenarios'] // 1000) and not harness_fail:
+        harness_fail = ('%d scenarios exceeded the %d s CPU allowance '
+                        '(more than a handful: the generator or the code '
+                        'under test is too slow)' % (ncpu, RUN_CPU_CAP_S))
 
     if SURVEY:
         print('SURVEY (no shrinking, no replay files): %d scenarios' %
